@@ -73,6 +73,14 @@ enum Construction<'db> {
 }
 
 impl<'db, 'a> EarlyReturnContext<'db, 'a> {
+    /// Returns the variable holding an identical construction that was already emitted, if it may
+    /// be used once more - i.e. only if its type is copyable (otherwise the returned value would
+    /// use a non-copyable variable twice).
+    fn reusable_construction(&self, key: &Construction<'db>) -> Option<VariableId> {
+        let output = *self.constructed.get(key)?;
+        self.variables[output].info.copyable.is_ok().then_some(output)
+    }
+
     /// Returns a vector of VarUsage's based on the input `ret_infos`.
     /// Adds `StructConstruct` and `EnumConstruct` statements to the block as needed.
     /// Assumes that early return is possible for the given `ret_infos`.
@@ -86,13 +94,13 @@ impl<'db, 'a> EarlyReturnContext<'db, 'a> {
                 }
                 ValueInfo::StructConstruct { ty, var_infos } => {
                     let inputs = self.prepare_early_return_vars(var_infos);
-                    let output = *self
-                        .constructed
-                        .entry(Construction::Struct(
-                            *ty,
-                            inputs.iter().map(|var_usage| var_usage.var_id).collect(),
-                        ))
-                        .or_insert_with(|| {
+                    let key = Construction::Struct(
+                        *ty,
+                        inputs.iter().map(|var_usage| var_usage.var_id).collect(),
+                    );
+                    let output = match self.reusable_construction(&key) {
+                        Some(output) => output,
+                        None => {
                             let output = self.variables.alloc(Variable::with_default_context(
                                 self.db,
                                 *ty,
@@ -101,8 +109,10 @@ impl<'db, 'a> EarlyReturnContext<'db, 'a> {
                             self.statements.push(Statement::StructConstruct(
                                 StatementStructConstruct { inputs, output },
                             ));
+                            self.constructed.insert(key, output);
                             output
-                        });
+                        }
+                    };
                     res.push(VarUsage { var_id: output, location: self.location });
                 }
                 ValueInfo::EnumConstruct { var_info, variant } => {
@@ -111,10 +121,10 @@ impl<'db, 'a> EarlyReturnContext<'db, 'a> {
                     let ty = TypeLongId::Concrete(ConcreteTypeId::Enum(variant.concrete_enum_id))
                         .intern(self.db);
 
-                    let output = *self
-                        .constructed
-                        .entry(Construction::Enum(*variant, input.var_id))
-                        .or_insert_with(|| {
+                    let key = Construction::Enum(*variant, input.var_id);
+                    let output = match self.reusable_construction(&key) {
+                        Some(output) => output,
+                        None => {
                             let output = self.variables.alloc(Variable::with_default_context(
                                 self.db,
                                 ty,
@@ -123,8 +133,10 @@ impl<'db, 'a> EarlyReturnContext<'db, 'a> {
                             self.statements.push(Statement::EnumConstruct(
                                 StatementEnumConstruct { variant: *variant, input, output },
                             ));
+                            self.constructed.insert(key, output);
                             output
-                        });
+                        }
+                    };
                     res.push(VarUsage { var_id: output, location: self.location });
                 }
                 ValueInfo::Interchangeable(_) => {
